@@ -174,4 +174,39 @@ LibStep ==
     \/ \E c \in aLive : Lib!ClearTracks(c)
     \/ (lastA'.out = "throw" /\ Lib!Failed(CallOf(lastA')))
 Refines == [][LibStep]_<<vis, lastA, kord, mord, everC, everT, kfA>>
+-----------------------------------------------------------------------------
+(* INDUCTION (as V2Store!SpecInd).  SpecInd starts from EVERY store within the id bounds that satisfies RowsOK -      *)
+(* built constructively from a forest (D, par), titles, tracks and membership pairs, since RowsOK fixes paths, parent   *)
+(* rows and hierarchy rows in terms of those - and makes one call with every injected failure.  RowsInv / GhostAgree / *)
+(* LibInv / Refines on SpecInd with MaxCalls = 1: the invariants are inductive and every call from any well-formed      *)
+(* store is a Library step, i.e. the bound on the NUMBER of calls is gone (ids stay bounded).  The history variables    *)
+(* start with siblings and members in ascending id order: the 1.x family has no observable order, no statement reads    *)
+(* kord / mord, and they are only ever changed by Append / Without, so the choice cannot matter.                        *)
+RECURSIVE AncF(_, _, _)
+AncF(par, c, fuel) == IF fuel = 0 \/ par[c] = 0 THEN {} ELSE {par[c]} \cup AncF(par, par[c], fuel - 1)
+RECURSIVE PathF(_, _, _, _)
+PathF(par, t, c, fuel) == IF par[c] = 0 \/ fuel = 0 THEN t[c] \o ";" ELSE PathF(par, t, par[c], fuel - 1) \o t[c] \o ";"
+RECURSIVE Asc(_)
+Asc(S) == IF S = {} THEN <<>> ELSE <<Min(S)>> \o Asc(S \ {Min(S)})
+Build(D, par, t, T, TL) ==
+    [C |-> [c \in D |-> CRow(t[c], PathF(par, t, c, Cardinality(D)))],
+     PL |-> {<<c, IF par[c] = 0 THEN c ELSE par[c]>> : c \in D},
+     H |-> UNION {{<<a, d>> : a \in AncF(par, d, Cardinality(D))} : d \in D},
+     TL |-> TL, T |-> T]
+InitInd ==
+    /\ \E D \in SUBSET (1 .. MaxC) : \E par \in [D -> D \cup {0}] :
+          /\ \A c \in D : c \notin AncF(par, c, Cardinality(D))
+          /\ \E t \in [D -> ValidNames] : \E T \in SUBSET (1 .. MaxT) : \E TL \in SUBSET (D \X T) :
+             \E eC \in SUBSET (1 .. MaxC) : \E eT \in SUBSET (1 .. MaxT) :
+                /\ D \subseteq eC /\ T \subseteq eT
+                /\ st = Build(D, par, t, T, TL)
+                /\ RowsOK(st)
+                /\ kord = [p \in D \cup {0} |-> Asc({c \in D : par[c] = p})]
+                /\ mord = [c \in D |-> Asc({x[2] : x \in {y \in TL : y[1] = c}})]
+                /\ everC = eC /\ everT = eT
+    /\ pre = st
+    /\ pc = <<>> /\ snap = <<>> /\ fail = 0 /\ ncalls = 0 /\ curT = 0 /\ kfA = ""
+    /\ cur = Call("init", 0, 0, "", 0, 0)
+    /\ lastA = [op |-> "init", c |-> 0, p |-> 0, n |-> "", t |-> 0, a |-> 0, out |-> "ok", new |-> 0]
+SpecInd == InitInd /\ [][Next]_svars
 =============================================================================
